@@ -238,11 +238,14 @@ def lowerDsl (d : ADef) : M Device := do
 
 /-! ### Manifest lowering -/
 
-/-- Manifest integers: JSON numbers are read as `u64`; YAML and TOML integers are `i64`, so an
-    unsigned value must stay below 2^63 there. -/
+/-- Manifest integers: JSON numbers are read as `u64`; TOML integers are `i64`, so an unsigned value
+    must stay below 2^63 there. YAML integers are `i64` too, but its reader also converts a `0b…`
+    string with `u64::from_str_radix`, so every `u64` can be written (the renderer spells
+    2^63 … 2^64-1 that way). -/
 def manUintOk (s : Syntax) (n : Nat) : Bool :=
   match s with
   | .json => fitsU64 n
+  | .yaml => fitsU64 n
   | _ => decide (n < 9223372036854775808)
 
 def manReset (s : Syntax) (r : Option ResetValue) : M (Option ResetValue) :=
